@@ -512,6 +512,7 @@ def init_stage(rep, tier, seed, prefixes):
 
 MODEL_TRACES = [("queens", [5], {}, "solve"), ("magic_sequence", [5], {}, "solve"), ("latin_square", [[0, 1, 2]], {}, "solve"),
                 ("quasigroup", [4, True], {}, "solve"), ("schur", [5, True], {}, "solve"), ("circuit", [4], {}, "solve"),
+                ("circuit", [6], {}, "solve"), ("circuit", [5], {"dh": 3, "vh": 2}, "solve"),
                 ("golomb_bounded", [4, 7, True], {"custom_ca": "golomb"}, "solve"),
                 ("golomb_bounded", [5, 13, True], {"custom_ca": "golomb"}, "solve"),
                 ("golomb_bounded", [5, 11, False], {"custom_ca": "golomb"}, "solve"),
